@@ -24,7 +24,7 @@ class Engine:
     def load_enum(self, rel_path, enum_name, key=None):
         """Variant names of a fieldless-or-not enum, in declaration order, from the current source."""
         text = open(os.path.join(self.src, rel_path)).read()
-        m = re.search(r"pub enum %s\s*\{" % re.escape(enum_name), text)
+        m = re.search(r"(?:pub(?:\([a-z]+\))? )?enum %s\s*(?:<[^{]*>)?\s*\{" % re.escape(enum_name), text)
         if not m:
             raise sym.Unsupported("enum %s not found in %s" % (enum_name, rel_path))
         i = m.end()
